@@ -7,15 +7,60 @@ HOOK_COMMITS = subprocess.run(["git", "-C", "/repo", "log", "--format=%H", "--gr
 
 # id: (technique, level text, level note, design ref)
 CHECKS = {
- "C01": ("reference-model monitor (differential against an independent ordered-backtracking matcher) at the API boundary + lock-step shadow hook",
-         "Every search of the explored pattern x text x offset space is executed on the real crate and compared with an executable model; held = no disagreement on the executions produced, nothing beyond them.",
-         "Trusted: the harness reference matcher (refm.rs) as the definition of the semantics; patterns with an unbounded repeat of a nullable body are left out (finding F1) and probed by witnesses.", "§3 C01"),
- "C02": ("reference-model monitor (all capture groups vs the reference match path)",
+ "C01": ("reference-model monitor: differential of every search against an independent ordered-backtracking matcher at the API boundary; lock-step shadow hook underneath",
+         "Every search of the explored pattern x text x offset space runs on the real crate and is compared with an executable model; held = no disagreement on the executions produced.",
+         "Trusted: the harness reference matcher (refm.rs) as the definition of the semantics; patterns with an unbounded repeat of a nullable body are left out (finding F1) and probed by witnesses.", "3 C01"),
+ "C02": ("reference-model monitor: all capture groups vs the reference match path",
          "Every group of every successful search in the explored space is compared with the model's winning path.",
-         "Trusted: reference matcher rule 3 (last participating iteration); cases whose overall span differs are left to C01.", "§3 C02"),
+         "Trusted: reference rule 3 (last participating iteration); cases whose overall span differs are left to C01.", "3 C02"),
+ "C03": ("metamorphic monitor: P vs P with an empty look-ahead injected at every site, both executed on the real crate",
+         "Every (base, variant) pair of the explored space must give identical captures on all texts; evidence counts pairs whose VM/automata split really differs.",
+         "No reference involved; F1-class base patterns are left out because the two engines differ there.", "3 C03"),
+ "C04": ("reference-model monitor with the regex crate as the executable model, whole API surface",
+         "Every common-syntax pattern of the explored space x every text x ~60 API calls is compared with regex::Regex.",
+         "Both crates share regex-automata, so a fault inside it is invisible here; FX / FL / F1 classes are listed findings.", "3 C04"),
+ "C05": ("panic / overflow monitor (catch_unwind, overflow-checks and debug-assertions compiled into the subject) plus offset-validity oracle on every reported span",
+         "All public search entry points are driven over the unrestricted grammar and multi-byte texts; every span is validated and the slicing sites are executed.",
+         "Err(RuntimeError) is an allowed outcome; runs use a backtrack limit and a VM step cap (cap hits are inconclusive cases).", "3 C05"),
+ "C06": ("process-level resource monitors: counting global allocator with cap, bounded thread stack, panic monitor, confirmed wall-clock watchdog, in worker processes",
+         "Every input of the token-sequence space is compiled under the monitors; aborts are observed by the parent and confirmed by re-running the input alone.",
+         "Time is observed through allocation counts and a confirmed watchdog, not a cycle bound; the allocation cap is a calibrated constant (64 MiB + 2 MiB per pattern byte).", "3 C06"),
+ "C07": ("invariant monitor on hooked VM counters (backtracks, steps) with online step cap; metamorphic over backtrack limits incl. the exact threshold",
+         "Per (pattern, text): the run is repeated under 8 fixed limits and the exact thresholds B, B-1 read through the hook; the step bound is enforced online.",
+         "The step bound K is a calibrated constant; evidence reports how close the run came.", "3 C07"),
+ "C08": ("history monitor: the whole find_iter sequence against an iteration model driven by the reference matcher, plus model-free order invariants and induced Err histories",
+         "Every yielded sequence in the explored space is compared item by item.",
+         "Patterns with \\K below a look-behind (finding FK) have no defined model sequence; F1 class left out.", "3 C08"),
+ "C09": ("metamorphic monitor: the search entry points against each other on the unrestricted space",
+         "is_match / find / captures / *_from_pos / find_iter / captures_iter must tell one story for every case, including where an Err appears.", "No reference involved.", "3 C09"),
+ "C10": ("history monitor: split / splitn item sequences (every prefix of next() calls) against the partition defined by the crate's own find_iter",
+         "Every (pattern, text, limit) of the explored space.", "find_iter itself is judged by C08.", "3 C10"),
+ "C11": ("reference-model monitor: try_replacen / replace* against a model built from the crate's captures_iter and the replacer's own output; fast path vs captures path; induced search errors",
+         "Every (pattern, text, limit, replacer) of the explored space.", "Template expansion itself is judged by C12.", "3 C11"),
+ "C12": ("reference-model monitor: all six expansion entry points against an independent expander written from the documentation; exhaustive small templates",
+         "All templates up to the length bound over the property's 14-symbol alphabet x 4 capture sets x both syntaxes; escape round trip; check soundness.",
+         "Trusted: the harness model of the documented syntax (c12.rs).", "3 C12"),
+ "C13": ("invariant monitor on hooked analysis facts: every node's min_size / const_size against match lengths enumerated by the reference matcher; differential on look-behinds over multi-byte texts",
+         "Every node of every analysable pattern of the unrestricted space is confronted with the lengths actually observed.",
+         "The converse direction (every fixed-length body is accepted) is not claimed by the property.", "3 C13"),
+ "C14": ("metamorphic monitor over builder options; regex-automata itself as the oracle for exceeding a size limit",
+         "Option routes must agree: case_insensitive(true) vs a leading (?i), neutral options, size limits per delegated piece, backtrack limit per route.",
+         "Size-limit verdicts are only judged where the oracle agrees with itself at n/4 and 4n.", "3 C14"),
  "C15": ("reference-model monitor over conditional patterns + auxiliary-stack pairing invariant at a VM hook",
          "Conditionals at every nesting position of the explored space are executed and compared with the model; BeginAtomic/EndAtomic pairing is asserted inside vm::run.",
-         "Trusted: reference rule 6; disagreements are attributed to finding FJ only when the run itself shows the leaked aux-stack entry being consumed.", "§3 C15"),
+         "Trusted: reference rule 6; a disagreement is attributed to finding FJ only when the run itself shows the leaked aux-stack entry being consumed.", "3 C15"),
+ "C16": ("reference-model monitor: group metadata against the truth known to the pattern generator, on both routes",
+         "captures_len, capture_names, Captures::{len,iter,get,name} for every pattern spelling (unnamed / named / mixed) and its VM twin.", "The generator's own group numbering is the oracle.", "3 C16"),
+ "C17": ("reference-model monitor: escape() embedded in 11 host patterns against plain string search; exhaustive short strings",
+         "All strings up to the length bound over 40 symbols incl. every ASCII punctuation character.", "'Needs escaping' is stated independently of the crate (regex meta-characters plus #).", "3 C17"),
+ "C18": ("sanitizers: ThreadSanitizer build and Miri (16 seeds) of a multi-thread stress monitor that compares every concurrent result with a single-threaded table; static Send+Sync+Clone assertion",
+         "Results under 2-16 threads on shared and cloned Regex values must equal the single-threaded ones; data races / UB are reported by TSan and Miri.",
+         "Interleavings are those the OS, TSan and 16 Miri seeds produce; no claim about all schedules.", "3 C18"),
+ "C19": ("metamorphic monitor: documented-equivalent spellings must parse to equal trees (Expr::parse_tree) and behave identically",
+         "13 respelling families applied at every applicable site plus hand-written pairs.", "Named spellings of forward references do not exist and are skipped.", "3 C19"),
+ "C20": ("invariant-at-a-hook monitors: exhaustive operation sequences on the real State (wrapper hook) against a whole-state-copy model; lock-step shadow of the backtracking state during real VM runs",
+         "All valid operation sequences up to the depth bound, seeded random long sequences, and program-level replay on committing-context patterns.",
+         "Validity of sequences follows VM discipline.", "3 C20"),
 }
 NOT_YET = {}
 for i in range(1, 21):
@@ -25,7 +70,7 @@ for i in range(1, 21):
 
 m = {
  "version": 1,
- "setup_cmd": "cd /verif/harness && CARGO_NET_OFFLINE=true cargo build --release --offline",
+ "setup_cmd": "/verif/tools/setup.sh",
  "hooks": {
    "guard": "cargo feature verif-hooks (fancy-regex/Cargo.toml), cfg(feature = \"verif-hooks\") in src/",
    "enable": "the harness crate depends on fancy-regex by path with features = [\"verif-hooks\"] (harness feature `hooks`, default on); ./check rebuilds it from /repo's working tree before every run",
@@ -49,7 +94,7 @@ for pid in sorted(CHECKS):
       "evidence_file": "/verif/evidence/%s.json" % pid,
       "replay_cmd_template": "./check --replay {path}",
       "engine": "frmon",
-      "level_claimed": {"category": "exploration", "text": text, "design_ref": ref},
+      "level_claimed": {"category": "exploration", "text": text, "design_ref": "DESIGN.md §" + ref},
       "level_note": note,
       "technique": tech,
     })
